@@ -35,6 +35,13 @@ Arguments ROk {A} a.
 Arguments RErr {A} e.
 
 Definition zero32 : bytes := repeat 0 32.   (* a zeroed snacl.CryptoKey *)
+(* endsWithNUL(passphrase) *)
+Fixpoint ends_nul (p : bytes) : bool :=
+  match p with
+  | [] => false
+  | [x] => x =? 0
+  | _ :: r => ends_nul r
+  end.
 Definition zero64 : bytes := repeat 0 64.   (* a zeroed hashedPrivPassphrase *)
 
 (* an address of the manager: (branch, index) of its derivation path *)
@@ -68,6 +75,16 @@ Section Machine.
      key only when the manager is locked); false reproduces the code as first found, which zeroed
      it also while unlocked — after which getMnemonic, relying on the unlocked state, failed. *)
   Variable zfix : bool.
+  (* [sfix] = true: the salted buffer of checkPassword is a fresh allocation (the repair proposed
+     for finding empty-passphrase-zeroes-salt); false reproduces the code as found:
+     "saltedPassphrase := append(a.privPassphraseSalt[:], passphrase...)" returns the array's own
+     backing store when the passphrase is EMPTY, and "zero.Bytes(saltedPassphrase)" then zeroes
+     the manager's salt. *)
+  Variable sfix : bool.
+  (* [nfix] = true: the repaired code (/repo commit 30c1bd3: a candidate ending with a zero byte is
+     refused before the key derivation — scrypt's HMAC zero-pads short keys, so P and P||00..
+     derive the same key); false reproduces the code as first found. *)
+  Variable nfix : bool.
 
   (* the mutable part of the AddrManager *)
   Record amstate := mkSt {
@@ -76,15 +93,21 @@ Section Machine.
     s_mk : bytes;                    (* masterKeyPriv.Key: zeroed, or the LAST scrypt output, right or wrong *)
     s_branch : option bytes;         (* Some acct: externalBranchPriv / internalBranchPriv are derived
                                         (from the decrypted account key string acct); None: both nil *)
-    s_cached : list (addr * sk) }.   (* ManagedAddress.privKey != nil *)
+    s_cached : list (addr * sk);     (* ManagedAddress.privKey != nil *)
+    s_salt : bytes }.                (* privPassphraseSalt (random per load; see [sfix]) *)
 
   Definition set_mk (st : amstate) (k : bytes) : amstate :=
-    mkSt (s_unlocked st) (s_hashed st) k (s_branch st) (s_cached st).
+    mkSt (s_unlocked st) (s_hashed st) k (s_branch st) (s_cached st) (s_salt st).
+  Definition set_salt (st : amstate) (x : bytes) : amstate :=
+    mkSt (s_unlocked st) (s_hashed st) (s_mk st) (s_branch st) (s_cached st) x.
 
-  (* a freshly loaded manager *)
-  Definition init_state : amstate := mkSt false zero64 zero32 None [].
+  (* a locked manager with nothing derived or cached *)
+  Definition locked_state (salt : bytes) : amstate := mkSt false zero64 zero32 None [] salt.
 
   Variable cfg : amcfg.
+
+  (* a freshly loaded manager *)
+  Definition init_state : amstate := locked_state (c_run_salt cfg).
 
   (* checkPassword. "NOTE: this func will leave the masterKeyPriv derived": when locked the scrypt
      output is copied into masterKeyPriv.Key BEFORE the digest comparison (snacl.DeriveKey), so a
@@ -92,8 +115,11 @@ Section Machine.
      of masterKeyPriv.Key that were handed to Decrypt (none here). *)
   Definition check_password (st : amstate) (p : bytes) : option uerr * amstate :=
     if s_unlocked st then
-      if bytes_eqb (shash (c_run_salt cfg ++ p)) (s_hashed st) then (None, st)
-      else (Some EInvalidPassphrase, st)
+      (* the hash is taken before the buffer is zeroed *)
+      let st' := if sfix then st else if null p then set_salt st zero32 else st in
+      if bytes_eqb (shash (s_salt st ++ p)) (s_hashed st) then (None, st')
+      else (Some EInvalidPassphrase, st')
+    else if nfix && ends_nul p then (Some EInvalidPassphrase, st)
     else
       let k := kdf p (c_salt cfg) in
       if bytes_eqb (digest k) (c_digest cfg) then (None, set_mk st k)
@@ -123,7 +149,7 @@ Section Machine.
           match derive_sk acct (fst a) (snd a) with
           | None => (RErr EDerive, st1, used)
           | Some k => (ROk k, mkSt (s_unlocked st1) (s_hashed st1) (s_mk st1) (s_branch st1)
-                                   ((a, k) :: s_cached st1), used)
+                                   ((a, k) :: s_cached st1) (s_salt st1), used)
           end in
         match s_branch st with
         | Some acct => with_branch acct st []
@@ -136,7 +162,7 @@ Section Machine.
                 | Some acct =>
                     (* NewKeyFromString, Child(ExternalBranch), Child(InternalBranch) *)
                     if branch_ok acct then
-                      with_branch acct (mkSt (s_unlocked st) (s_hashed st) (s_mk st) (Some acct) (s_cached st))
+                      with_branch acct (mkSt (s_unlocked st) (s_hashed st) (s_mk st) (Some acct) (s_cached st) (s_salt st))
                                   [s_mk st]
                     else (RErr EDerive, st, [s_mk st])
                 end
@@ -153,7 +179,7 @@ Section Machine.
       | (Some e, st1) => (RErr e, st1, [])
       | (None, st1) =>
           let st2 := if s_unlocked st1 then st1
-                     else mkSt true (shash (c_run_salt cfg ++ p)) (s_mk st1) (s_branch st1) (s_cached st1) in
+                     else mkSt true (shash (s_salt st1 ++ p)) (s_mk st1) (s_branch st1) (s_cached st1) (s_salt st1) in
           match get_priv st2 a with
           | (RErr e, st3, u) => (RErr e, st3, u)
           | (ROk k, st3, u) => (ROk (sign k hash), st3, u)
@@ -211,8 +237,8 @@ Section Machine.
     | (Some _, st') => (ROk tt, st', [])
     end.
 
-  (* clearPrivKeys *)
-  Definition clear_priv_keys (st : amstate) : amstate := init_state.
+  (* clearPrivKeys (the salt is not touched) *)
+  Definition clear_priv_keys (st : amstate) : amstate := locked_state (s_salt st).
 
   (* ---------------------------------------------------------------- KeystoreManager level *)
   Inductive op :=
@@ -340,6 +366,7 @@ Section Machine.
   Definition obs_state (st : amstate) : bool * bool * bool * bool * nat :=
     (s_unlocked st, bytes_eqb (s_mk st) zero32, bytes_eqb (s_hashed st) zero64,
      match s_branch st with Some _ => true | None => false end, length (s_cached st)).
+  Definition salt_zero (st : amstate) : bool := bytes_eqb (s_salt st) zero32.
 End Machine.
 
 Arguments mkSt {sk}.
@@ -348,6 +375,10 @@ Arguments s_hashed {sk}.
 Arguments s_mk {sk}.
 Arguments s_branch {sk}.
 Arguments s_cached {sk}.
+Arguments s_salt {sk}.
+Arguments set_salt {sk}.
+Arguments locked_state {sk}.
+Arguments salt_zero {sk}.
 Arguments init_state {sk}.
 Arguments OutSig {sig}.
 Arguments OutExport {sig}.
